@@ -12,6 +12,7 @@ import Gsp.Model.HasherCfg
 import Gsp.Model.Claim
 import Gsp.Model.Verify
 import Gsp.Model.Resolve
+import Gsp.Model.Hex
 import Gsp.Model.Loader
 import Gsp.Model.Json
 import Gsp.Model.Schema
@@ -447,6 +448,22 @@ def opVerifySmt (k : Pos.Consts) (inp : Json) : Except String Json := do
     genesis := exceptBoolOf (← inp.getObjVal? "genesis") }
   pure (outcomeJ (Verify.smtProof (treeHash k) (H3of k) b))
 
+/-- core.Claim.FromHex on a string as written: the eight slots, or the error class; and the claim's own spelling -/
+def opHexClaim (inp : Json) : Except String Json := do
+  let s ← jstr inp "s"
+  match Hex.claimFromHex Pos.Q (s.toList.map Char.toNat) with
+  | .error e => pure (errJ e)
+  | .ok slots =>
+    let back := String.ofList ((Hex.claimToHex slots).map Char.ofNat)
+    pure (okJ (Json.mkObj [("slots", Json.arr (slots.map fun n => Json.str (toString n)).toArray), ("hex", Json.str back)]))
+
+/-- hex.DecodeString / EncodeToString -/
+def opHexBytes (inp : Json) : Except String Json := do
+  let s ← jstr inp "s"
+  match Hex.decode (s.toList.map Char.toNat) with
+  | none => pure (errJ "hex")
+  | some bs => pure (okJ (Json.str (String.ofList ((Hex.encode bs).map Char.ofNat))))
+
 def registryOpOf (j : Json) : Except String Resolve.Op := do
   let o ← jstr j "o"
   let own ← (← j.getObjVal? "own").getBool?
@@ -668,6 +685,8 @@ def handle (k : Pos.Consts) (op : String) (inp : Json) : Except String Json :=
   | "verify.status" => opVerifyStatus k inp
   | "verify.http" => opVerifyHttp inp
   | "registry.run" => opRegistryRun inp
+  | "hex.claim" => opHexClaim inp
+  | "hex.bytes" => opHexBytes inp
   | "cred.view" => opCredView inp
   | "ctx.paths" => opCtxPaths inp
   | "ctx.typeid" => opCtxTypeId inp
